@@ -279,6 +279,7 @@ pub fn run_assets(ctx: &Ctx, sub: &str) -> SubReport {
             Some(p) => {
                 acc.nontrivial += 1;
                 oracle_offsets(sub, &p, k as u64, &case, &mut acc);
+                oracle_file_api(sub, &x, k as u64, &case, &mut acc);
                 acc.sample(k as u64, || json!({"asset": rel, "bytes": x.len()}));
                 // bytes appended after the payload belong to the payload
                 for extra in [1usize, 9] {
@@ -298,12 +299,13 @@ pub fn run_assets(ctx: &Ctx, sub: &str) -> SubReport {
                     if oracle_roundtrip(sub, &x[..cut], 100 + k as u64, &c2, &mut acc).is_some() {
                         acc.nontrivial += 1;
                     }
+                    oracle_file_api(sub, &x[..cut], 100 + k as u64, &c2, &mut acc);
                 }
             }
             None => crate::ctx::machinery(&format!("asset {} is rejected by the parser: the run would be vacuous", rel)),
         }
     }
-    SubReport::new(sub, "A", "the six rpmbuild-produced asset packages, whole, with 1 and 9 bytes appended, and with the payload truncated at three offsets", acc)
+    SubReport::new(sub, "A", "the six rpmbuild-produced asset packages, whole, with 1 and 9 bytes appended, and with the payload truncated at three offsets; the path-based entry points (Package::open, PackageMetadata::open, write_file) must agree with parse / write", acc)
 }
 
 pub fn sweeps(ctx: &Ctx) -> Vec<Sweep> {
